@@ -657,12 +657,15 @@ pub(super) fn adds(
         )
         .unwrap();
 
-        // store result
-        operand_store(block, &instruction.operands()[0], result)?;
+        // set the flags first: their expressions read the source registers,
+        // and the destination may be one of them (`adds x0, x0, x1`)
         block.assign(scalar!("n"), n);
         block.assign(scalar!("z"), z);
         block.assign(scalar!("c"), c);
         block.assign(scalar!("v"), v);
+
+        // store result
+        operand_store(block, &instruction.operands()[0], result)?;
 
         block.index()
     };
@@ -1426,12 +1429,15 @@ pub(super) fn subs(
         )
         .unwrap();
 
-        // store result
-        operand_store(block, &instruction.operands()[0], result)?;
+        // set the flags first: their expressions read the source registers,
+        // and the destination may be one of them (`adds x0, x0, x1`)
         block.assign(scalar!("n"), n);
         block.assign(scalar!("z"), z);
         block.assign(scalar!("c"), c);
         block.assign(scalar!("v"), v);
+
+        // store result
+        operand_store(block, &instruction.operands()[0], result)?;
 
         block.index()
     };
